@@ -62,7 +62,9 @@ TRUSTED = [
     'of the model under some schedule"',
 ]
 ASSUMPTIONS = [
-    'a restarted worker is seen alive again only after the master has dealt with the call that hung on it',
+    'a restarted worker is seen alive again only after the master has dealt with the call that hung on it '
+    "(kind 'acrejoin': after the master's loop has gone round 40 times since the announced death - whatever it did "
+    'with the call)',
     'max_parallelism = 1, iterate_batch_size = 1 (defaults); one pool per run',
 ]
 RULE = ('sharded runs: every single-fault plan (worker x call index 0..5 x {deadline, deadline_after, die, restart, app_error}) '
